@@ -92,7 +92,36 @@ func (x *Explorer) builtin(st *State, f *Frame, ins ssa.Instruction, b *ssa.Buil
 	case "ssa:deferstack":
 		return VInt{T: IntLit(0)}
 	case "clear":
-		st.note("builtin clear not modelled")
+		switch a := args[0].(type) {
+		case VSlice:
+			// every element of the slice becomes the zero value; the rest of the backing array stays
+			names, sorts := x.elemHeaps(st, a.Elem)
+			for i, name := range names {
+				arr := st.heapGet(name, ArrSort(ArrSort(sorts[i])))
+				row := Select(arr, a.Arr)
+				nrow := st.freshSym("clear_row", ArrSort(sorts[i]))
+				k := Sym(fmt.Sprintf("ck!%d", x.fresh), SInt)
+				x.fresh++
+				in := And(Ge(k, a.Off), Lt(k, Add(a.Off, a.Len)))
+				if sorts[i] == SInt {
+					st.assume(Forall([]*Term{k}, Implies(in, Eq(Select(nrow, k), IntLit(0)))))
+				} else if sorts[i] == SBool {
+					st.assume(Forall([]*Term{k}, Implies(in, Not(Select(nrow, k)))))
+				} else {
+					st.note("builtin clear: elements of sort " + sorts[i] + " left unconstrained")
+				}
+				st.assume(Forall([]*Term{k}, Implies(Not(in), Eq(Select(nrow, k), Select(row, k)))))
+				st.heapSet(name, Store(arr, a.Arr, nrow))
+			}
+		case VMap:
+			prefix, _ := x.mapHeaps(st, a)
+			hasArr := st.heapGet(prefix+"#has", ArrSort(ArrSort(SBool)))
+			st.heapSet(prefix+"#has", Store(hasArr, a.Ref, ConstArr(ArrSort(SBool), tFalse)))
+			cnt := st.heapGet(prefix+"#len", ArrSort(SInt))
+			st.heapSet(prefix+"#len", Store(cnt, a.Ref, IntLit(0)))
+		default:
+			x.fail("builtin clear on %T", args[0])
+		}
 		return nil
 	}
 	x.fail("builtin %s", b.Name())
